@@ -68,7 +68,7 @@ var extCode = map[string]uint16{
 }
 
 var sniName = map[string]string{
-	"pub": "public.example.com", "priv": "Private.Example.COM", "other": "other.example.net", "pubB": "public-b.example.org", "": "",
+	"pub": "Public-k.Example.COM", "pubKelvin": "Public-\u212a.Example.COM", "priv": "Private.Example.COM", "other": "other.example.net", "pubB": "public-b.example.org", "": "",
 }
 var alpnList = map[string][]string{"ao": {"http/1.1"}, "ai": {"h2", "http/1.1"}, "": nil}
 
